@@ -635,6 +635,11 @@ func walkImpl(c Case) []int64 {
 
 // programs that together contain every node type (checked by the oracle on every run)
 var walkCorpus = []string{
+	"class A{[x+y](){} #p=1}", // D16
+	"({[z](){}})",             // D16
+	"class A { a = 1; b = 2 }", // finding walk:copy
+	"x.y = i",                  // DotExpr.Y is a LiteralExpr VALUE
+	"if(a);else b",
 	"#!/usr/bin/env node\n'use strict'; /*! banner */ ;",
 	"if (a) b; else c",
 	"if (a) { b } else if (c) d",
